@@ -12,7 +12,7 @@ HARNESS_DESC = "harness/notifq.cpp (real notification_queue<tuple<integral_const
 HARNESS = {
     "default": dict(src="harness/notifq.cpp", ldflags=["-pthread"]),
     # no optimiser, no sanitizer: every C++ memory access is its own instruction (C13 granularity)
-    "o0": dict(src="harness/notifq.cpp", flags=["-O0", "-g", "-w"], ldflags=["-pthread"]),
+    "o0": dict(src="harness/notifq_o0.cpp", flags=["-O0", "-g", "-w"], ldflags=["-pthread"]),
     "att": dict(src="harness/attnotify.cpp"),
 }
 
@@ -92,6 +92,15 @@ class Oracle:
             return hit
         elif w[0] == "conf":
             self.awaiting = False
+        elif w[0] == "confpdu":
+            # a Handle Value Confirmation is exactly the opcode; anything longer must be rejected
+            # with Error Response / Invalid PDU and must not confirm
+            if len(w[1]) == 2:
+                self.awaiting = False
+                if out != "-":
+                    return ("%s:confirmation-answered" % pid, "`%s` answered %s" % (op, out))
+            elif out != "011e000004":
+                return ("%s:bad-length-confirmation-not-rejected" % pid, "`%s` answered %s instead of Error Response 0x04" % (op, out))
         elif w[0] == "clear":
             self.pending, self.awaiting, self.wait = set(), False, {}
         return None
@@ -116,7 +125,8 @@ def gen_session(rng, cfg_index, length, drain=True):
         elif r < 0.85 - pconf:
             ops.append("deq")
         elif r < 0.85:
-            ops.append("conf")
+            x = rng.random()
+            ops.append("conf" if x < 0.5 else "confpdu 1e" if x < 0.75 else "confpdu 1e" + "".join(rng.choice(["00", "1e", "ff", "01"]) for _ in range(rng.randrange(1, 4))))
         elif r < 0.87:
             ops.append("clear")
         else:
@@ -169,7 +179,9 @@ def run_queue(ctx, pid, want_keys):
         res.extra["exhaustive_small_scope"] = "all op sequences over qn/qi/deq/conf: [1] length 6, [2] length 5, [1,2] length 4"
     impl, model, dis = ctx.run_pair(sessions)
     for d in dis:
-        ops = ctx.shrink_disagreement(sessions[d["session"]]) if len(res.disagreements) < 2 else sessions[d["session"]]
+        ops = sessions[d["session"]][:d["op_index"] + 1]
+        if not res.disagreements:
+            ops = ctx.shrink(ops, lambda cand: bool(ctx.run_pair([cand])[2]), budget=40)
         res.disagreements.append(dict(d, ops=ops))
     for ops, r in zip(sessions, impl):
         res.evaluations += len(r["out"])
@@ -200,7 +212,7 @@ def run_queue(ctx, pid, want_keys):
 
 C12_KEYS = ("not-a-set", "pending-notification-not-dequeued", "dequeued-not-pending", "priority-inversion", "unfair",
             "notification-waits-behind-own-indication", "bad-output", "crash")
-C11_KEYS = ("second-indication-before-confirmation", "pending-notification-not-dequeued", "pending-indication-not-dequeued",
+C11_KEYS = ("bad-length-confirmation-not-rejected", "confirmation-answered", "second-indication-before-confirmation", "pending-notification-not-dequeued", "pending-indication-not-dequeued",
             "never-transmitted", "dequeued-not-pending", "crash")
 
 RULE = ("sessions = reset <partition> ([1] [2] [5] [1,1] [1,3] [3,1] [4,4,1] [1,2]) + random queue_notification / queue_indication "
@@ -308,8 +320,8 @@ def run_c13(ctx, replay_path=None):
     sessions = [ops for _, ops in ctx.corpus()]
     n = 150 if ctx.thorough else 16
     for i in range(n):
-        ci = [1, 0, 7, 3, 4, 5, 2, 6][i % 8] if ctx.thorough else [1, 0, 7, 3, 4, 5, 1, 2][i % 8]
-        sessions.append(gen_c13_session(ctx.rng, ci, 2 if ci in (2, 6) else 5))
+        ci = [1, 0, 7, 3, 4, 5, 2, 6][i % 8] if ctx.thorough else [1, 0, 7, 3, 4, 5, 2, 0][i % 8]
+        sessions.append(gen_c13_session(ctx.rng, ci, 2 if ci in (2, 6) else 4))
 
     def proj(op, line):
         return "stress" if op.startswith("stress") else line
@@ -367,7 +379,8 @@ PROPS = {
     ),
     "C11": dict(
         theorems=[N + "one_outstanding", N + "notifications_continue", N + "indication_progress_partial",
-                  N + "dequeue_exactly_once_in_priority_order", N + "queue_refines_set"],
+                  N + "dequeue_exactly_once_in_priority_order", N + "queue_refines_set",
+                  N + "bad_length_confirmation_rejected", N + "good_confirmation_confirms"],
         witnesses=[],
         technique="Lean 4 invariant proof over all histories (trace predicate one_outstanding) on the refinement of C12 + differential correspondence",
         level_text="one_outstanding: in the output trace of every history on every partition no indication is dequeued between an indication and the next confirmation/clear; notifications_continue; indication_progress_partial (one conf;deq round always dequeues when an indication is pending; the counting argument to 'eventually' is checked by the drain phase of every session, not proved). The wrong-length confirmation clause lives in server.hpp and is covered by the C10 component (attnotify).",
